@@ -59,6 +59,13 @@ def sym_expr(draw, names, holes=False, depth=0):
     return ("bin", draw(st.sampled_from(["+", "-", "*"])), draw(sub), draw(sub))
 
 
+def _weighted(pool):
+    """Names are drawn with weight on the first few of the pool, so that re-use of a name (what most branches of the
+    matcher need) stays frequent however many exotic names the pool has."""
+    pool = list(pool)
+    return pool[:1] * 4 + pool[1:2] * 3 + pool[2:3] * 2 + pool[3:]
+
+
 @st.composite
 def legal_token(draw, *, allow_multi=True, allow_q=False, sym_names=(), holes=False, names=NAMES, vnames=VNAMES, only_multi=False):
     if only_multi:
@@ -70,6 +77,7 @@ def legal_token(draw, *, allow_multi=True, allow_q=False, sym_names=(), holes=Fa
         )
     kind = draw(st.sampled_from(kinds))
     doc = draw(st.one_of(st.none(), st.none(), st.none(), st.sampled_from(DOCS)))
+    names, vnames = _weighted(names), _weighted(vnames)
     if kind == "ellipsis":
         return Token("", "ellipsis", None)
     if kind == "name":
